@@ -157,5 +157,64 @@ def r06_4(ctx):
 r06_4.rule_id = "R06.4"
 
 
-RULES = [r06_1, r06_2, r06_3, r06_4]
-FLOORS = {"R06.1": 12, "R06.2": 8, "R06.3": 6, "R06.4": 6}
+def r06_5(ctx):
+    """'empty' is reported from a consistent snapshot: when the decision rests on values read from two or more shared locations, the location
+    read first is re-read after all the others and found unchanged (double collect), so that all values were simultaneously valid"""
+    n = 0
+    for F in ctx.db.funcs.values():
+        if not re.match(r"cds::intrusive::(MSQueue|MoirQueue|BasketQueue|OptimisticQueue)::do_dequeue$", F.q):
+            continue
+        for p in PathSim(F, bound=4000).run():
+            if p.outcome != "return" or p.ret != C(0):
+                continue
+            ev = p.events
+            alias = {}
+            for e in ev:
+                if e.kind == "call" and e.q and e2.PROJ.search(e.q) and e.obj is not None:
+                    alias[e.val] = e.obj
+            reads = []
+            for i, e in enumerate(ev):
+                if e.kind != "call" or not e.q:
+                    continue
+                loc = None
+                if e2.PROTECT.search(e.q):
+                    locs = [a for a in e.args if isinstance(a, tuple) and a[:1] in (("fld",), ("deref",))]
+                    loc = locs[0] if locs else None
+                elif atomic_op(e) == "load" and e.node is not None and e2.is_ptr_type(e.node.get("t")):
+                    loc = e.obj
+                if loc is not None:
+                    reads.append((i, noepoch(loc), e.val))
+            atoms = cond_atoms(p)
+
+            def mentions(atom, v, d=0):
+                if atom == v:
+                    return True
+                if d < 6 and atom in alias and mentions(alias[atom], v, d + 1):
+                    return True
+                if isinstance(atom, tuple):
+                    return any(mentions(x, v, d + 1) for x in atom if isinstance(x, tuple))
+                return False
+            part = [r for r in reads if any(mentions(a, r[2]) for a, tv, b in atoms)]
+            # (a value read *through* a protected pointer - h->m_pNext == nullptr in MSQueue/MoirQueue - is a stable witness on its own: a node
+            # leaves the head position only after it got a successor, so no address-dependency closure is applied here)
+            if len(set(r[1] for r in part)) < 2:
+                continue
+            n += 1
+            first = part[0]
+            others_last = max(r[0] for r in part if r[1] != first[1])
+            ok = False
+            for r in part:
+                if r[1] == first[1] and r[0] > others_last:
+                    for a, tv, b in atoms:
+                        if isinstance(a, tuple) and a[:2] == ("op", "==") and tv and mentions(a, first[2]) and mentions(a, r[2]):
+                            ok = True
+            ctx.check(ok, "R06.5", F, "'empty' is decided on a consistent snapshot: the location read first is re-read unchanged after the other reads", ev[first[0]].node,
+                      detail="reads in order: %s. Without the re-validation of the first read the values compared may never have been simultaneously true - "
+                      "dequeue can report empty for a queue that was never empty. %s" % ([sv_field_path(r[1])[-1:] for r in part], R), sig="empty-snapshot")
+    if n < 3:
+        ctx.broken("empty-result paths with a multi-location decision not found (%d)" % n)
+r06_5.rule_id = "R06.5"
+
+
+RULES = [r06_1, r06_2, r06_3, r06_4, r06_5]
+FLOORS = {"R06.1": 12, "R06.2": 8, "R06.3": 6, "R06.4": 6, "R06.5": 3}
